@@ -35,6 +35,11 @@ type Delivery struct {
 	Shuffle *rand.Rand
 	// NoYAML suppresses the config file altogether (everything must be in CLI).
 	NoYAML bool
+	// Blank: content of the config file when no option is left for it (the file is still named by config=).
+	Blank string
+	// Anchors: a list entry that occurs in several lists is written once with a YAML anchor and
+	// referenced by an alias afterwards.
+	Anchors bool
 	// Extra parameters are added verbatim next to the computed ones (options given on BOTH channels).
 	Extra []string
 }
@@ -247,10 +252,41 @@ func Emit(c *ir.Config, d Delivery) (yaml string, params []string) {
 	for _, s := range secs {
 		b.WriteString(s.body)
 	}
-	if len(secs) == 0 || d.NoYAML {
+	if d.NoYAML {
 		return "", params
 	}
+	if len(secs) == 0 {
+		return d.Blank, params
+	}
+	if d.Anchors {
+		return anchored(b.String()), params
+	}
 	return b.String(), params
+}
+
+// anchored rewrites repeated items of the top-level lists: first occurrence `- &aN "v"`, later ones `- *aN`.
+func anchored(y string) string {
+	lines := strings.Split(y, "\n")
+	count := map[string]int{}
+	for _, l := range lines {
+		if strings.HasPrefix(l, "  - \"") {
+			count[l]++
+		}
+	}
+	name := map[string]string{}
+	for i, l := range lines {
+		if !strings.HasPrefix(l, "  - \"") || count[l] < 2 {
+			continue
+		}
+		if a, ok := name[l]; ok {
+			lines[i] = "  - *" + a
+		} else {
+			a := fmt.Sprintf("a%d", len(name)+1)
+			name[l] = a
+			lines[i] = "  - &" + a + " " + strings.TrimPrefix(l, "  - ")
+		}
+	}
+	return strings.Join(lines, "\n")
 }
 
 // Param joins the parameters with the config path.
